@@ -6,7 +6,8 @@ import time
 
 from .build import VERIF, AnalysisIncomplete
 
-EVIDENCE_DIR = os.path.join(VERIF, "evidence")
+# scratch analyses (self-test, seeded and benign edits) keep their evidence out of /verif/evidence
+EVIDENCE_DIR = os.environ.get("SS_EVIDENCE") or os.path.join(VERIF, "evidence")
 KNOWN = os.path.join(VERIF, "known_findings.json")
 
 
